@@ -237,8 +237,8 @@ func checkDefs() map[string]CheckDef {
 			{Pkg: "internal/verifh/c07", Harness: "VerifC07SubFunding", TV: 10},
 			{Pkg: "internal/verifh/c07", Harness: "VerifC07SubSettlement", TV: 10},
 			{Pkg: "internal/verifh/c07", Harness: "VerifC07SubFinal", TV: 6, Note: "settlement interceptor installed by the real acceptUpdate of the peer's final sub-channel update"},
-			{Pkg: "internal/verifh/c12", Harness: "VerifVirtualFunding", Quick: map[string]int{"devmask": 6951}, Thor: map[string]int{"devmask": -1}, TV: 3, Note: "quick: deviations 0,1,2,5,8,9,11,12 (the others run in C12's quick tier); thorough: all"},
-			{Pkg: "internal/verifh/c12", Harness: "VerifVirtualSettlement", Quick: map[string]int{"bKinds": 2, "devmask": 435}, Thor: map[string]int{"bKinds": 3, "devmask": -1}, TV: 3, Note: "quick: deviations 0,1,4,5,7,8; thorough: all"},
+			{Pkg: "internal/verifh/c12", Harness: "VerifVirtualFunding", Quick: map[string]int{"devmask": 6951}, Thor: map[string]int{"devmask": -1}, TV: 1, Note: "quick: deviations 0,1,2,5,8,9,11,12 (the others run in C12's quick tier); thorough: all"},
+			{Pkg: "internal/verifh/c12", Harness: "VerifVirtualSettlement", Quick: map[string]int{"bKinds": 2, "devmask": 435}, Thor: map[string]int{"bKinds": 3, "devmask": -1}, TV: 1, Note: "quick: deviations 0,1,4,5,7,8; thorough: all"},
 		},
 		Assumptions: append(append([]string{}, clientAssume...),
 			"the independent acceptability predicates are written from the property text in the harness (c07.go acceptable/successor, sub.go, c12/virtual.go fundingRef/settlementRef); the wire-level sender is not part of them (the property identifies the sender by the signature)",
@@ -252,8 +252,8 @@ func checkDefs() map[string]CheckDef {
 			{Pkg: "internal/verifh/c12", Harness: "VerifC12Sync", Quick: map[string]int{"phases": 2}, Thor: map[string]int{"phases": 5}, TV: 10},
 			{Pkg: "internal/verifh/c12", Harness: "VerifC12Update", Quick: map[string]int{"phases": 2}, Thor: map[string]int{"phases": 5}, TV: 10},
 			{Pkg: "internal/verifh/c08", Harness: "VerifC08Validation", TV: 6, Note: "proposal messages: no panic, parent channel not left locked"},
-			{Pkg: "internal/verifh/c12", Harness: "VerifVirtualFunding", Quick: map[string]int{"devmask": 9437}, Thor: map[string]int{"devmask": -1}, TV: 3, Note: "quick: deviations 0,2,3,4,6,7,10,13 (the others run in C07's quick tier); thorough: all"},
-			{Pkg: "internal/verifh/c12", Harness: "VerifVirtualSettlement", Quick: map[string]int{"bKinds": 2, "devmask": 1613}, Thor: map[string]int{"bKinds": 3, "devmask": -1}, TV: 3, Note: "quick: deviations 0,2,3,6,9,10; thorough: all"},
+			{Pkg: "internal/verifh/c12", Harness: "VerifVirtualFunding", Quick: map[string]int{"devmask": 9437}, Thor: map[string]int{"devmask": -1}, TV: 1, Note: "quick: deviations 0,2,3,4,6,7,10,13 (the others run in C07's quick tier); thorough: all"},
+			{Pkg: "internal/verifh/c12", Harness: "VerifVirtualSettlement", Quick: map[string]int{"bKinds": 2, "devmask": 3661}, Thor: map[string]int{"bKinds": 3, "devmask": -1}, TV: 1, Note: "quick: deviations 0,2,3,6,9,10,11; thorough: all"},
 		},
 		Assumptions: append(append([]string{}, clientAssume...),
 			"'decodes successfully' is modelled by building message values directly within what the decoders can deliver (C13/C14 cover the decoders): states that fail State.Valid are only sent with garbage signatures; parameters have at least two participants; no nil sub-messages",
@@ -267,6 +267,7 @@ func checkDefs() map[string]CheckDef {
 		Obligations: []Obligation{
 			{Pkg: "internal/verifh/c06", Harness: "VerifC06Sequential", Quick: map[string]int{"n": 2}, Thor: map[string]int{"n": 3}, TV: 6},
 			{Pkg: "internal/verifh/c06", Harness: "VerifC06Concurrent", TV: 6, Note: "deterministic run-to-block schedule"},
+			{Pkg: "internal/verifh/c06", Harness: "VerifC06EarlyUpdate", TV: 6, Note: "first update arriving while 1..2 openings are running on the responder (version-1 cache): handled exactly once"},
 			{Pkg: "internal/verifh/c06", Harness: "VerifC06Concurrent", Sched: true, Quick: map[string]int{"P": 0, "D": 1, "race": 1}, Thor: map[string]int{"D": 2}, Note: "delay-bounded schedule exploration: every schedule that deviates from the default choice at up to D scheduling decisions (blocking points), happens-before race detection"},
 		},
 		Assumptions: append(append([]string{}, clientAssume...),
@@ -274,7 +275,7 @@ func checkDefs() map[string]CheckDef {
 			"both clients hold the same channel(s) in phase Acting with an arbitrary fully signed current state; updates are payments of a symbolic amount from the proposer; the responder's handler accepts or rejects by a symbolic decision",
 			"timeouts (5 s proposer, 2 s responder) fire on the virtual clock only when nothing else can run; runs with a timed-out request are only checked for the fully-signed invariant, as the property states",
 			"'at every moment' is checked at quiescence (after each protocol run) and not between individual machine steps"),
-		BoundsText: "sequential: programs of n proposals (n=2 quick, 3 thorough), each by either party, each accepted or rejected; after every run both parties hold the reference state (proposed state on success, unchanged on rejection), fully signed, phase Acting, machine mutex free; success iff the peer's handler accepted, refusal is a PeerRejectedError; concurrent: both parties propose at the same time on one channel or on two channels of the same pair; without timeouts both hold the same state whose version is initial + number of successes and equals the last successful proposal; always: current transactions fully signed",
+		BoundsText: "sequential: programs of n proposals (n=2 quick, 3 thorough), each by either party, each accepted or rejected; after every run both parties hold the reference state (proposed state on success, unchanged on rejection), fully signed, phase Acting, machine mutex free; success iff the peer's handler accepted, refusal is a PeerRejectedError; concurrent: both parties propose at the same time on one channel or on two channels of the same pair; without timeouts both hold the same state whose version is initial + number of successes and equals the last successful proposal; always: current transactions fully signed; early update: a version-1 update received while 1..2 channel openings are running is cached, handed to the handler exactly once when an opening finishes, answered once, and a rejected one is never accepted later",
 		Outside:    []string{"message loss and reordering on the bus", "more than two concurrent proposals", "the state between individual steps of a protocol run (only quiescent points are compared)", "schedules beyond the delay bound"},
 	})
 	return defs
